@@ -19,6 +19,8 @@ def ensure_repo_dds():
     """Import dds from the working tree of /repo and nothing else."""
     if REPO not in sys.path[:1]:
         sys.path.insert(0, REPO)
+    import logging
+    logging.disable(logging.CRITICAL)
     import dds  # noqa
 
     f = os.path.realpath(dds.__file__)
